@@ -1,6 +1,7 @@
 import AdaVerif.Lemmas.Ascii
 import AdaVerif.Lemmas.Ipv4
 import AdaVerif.Lemmas.ParseInv
+import AdaVerif.Lemmas.HostFixed
 /-
 C05 — Serialization is a parse fixed point and plain ASCII.
 
@@ -86,6 +87,17 @@ theorem reencode_is_identity (S : EncodeSet) (hS : inSet S 0x25 = false) (s : By
 theorem ipv4_host_fixed (a : Nat) (ha : a < 2 ^ 32) :
     endsInANumber (ipv4Serialize a) = true ∧ ipv4Parse (ipv4Serialize a) = some a :=
   ⟨ipv4_endsInANumber a, ipv4_roundtrip a (by simpa using ha)⟩
+
+/-- T2': hosts are fixed points of serialise-then-parse: every IPv4 address (special URLs), every IPv6
+    address (any URL) and every encoded opaque host (non-special URLs) is returned unchanged by the host
+    parser applied to its serialisation -/
+theorem host_reparse_fixed (idna : Idna) :
+    (∀ a, a < 4294967296 → hostParse idna (Host.serialize (.ipv4 a)) false = some (.ipv4 a)) ∧
+    (∀ p : List Nat, p.length = 8 → (∀ x ∈ p, x < 65536) → ∀ opq, hostParse idna (Host.serialize (.ipv6 p)) opq = some (.ipv6 p)) ∧
+    (∀ o : Bytes, o ≠ [] → o.head? ≠ some 0x5B → (percentEncode inC0 o).any isForbiddenHost = false →
+      hostParse idna (Host.serialize (.opaqueHost (percentEncode inC0 o))) true = some (.opaqueHost (percentEncode inC0 o))) :=
+  ⟨Lemmas.ipv4_host_fixed idna, fun p hl hb opq => by simp [Host.serialize, hostParse, V6.ipv6_roundtrip p hl hb],
+   opaque_host_fixed idna⟩
 
 /-- a non-opaque path is empty or begins with '/' (so the serializer is unambiguous) -/
 theorem path_begins_with_slash (u : Url) (h : u.isOpaque = false) :
